@@ -115,5 +115,7 @@ func ReleaseRuntimeContext(ctx *RuntimeContext) {
 		refs[i] = nil
 	}
 	ctx.KeepRefs = ctx.KeepRefs[:0]
+	// the caller's context belongs to the finished call only
+	ctx.Option.Context = nil
 	runtimeContextPool.Put(ctx)
 }
